@@ -810,6 +810,33 @@ func flReader(c *Ctx, a *flAgg) {
 		}
 	}
 	rs := c.MustFunc(a.obls, "FL-fill-guard", "stack", "reader", "readSlice")
+	if rs != nil && fill != nil {
+		// who may call fill: only the guarded refill point of readSlice (or a
+		// helper outside the pinned vocabulary, which the exploration of
+		// readSlice looks through). A second refill site - "top the buffer up
+		// before searching again" - waits for input although complete lines
+		// may already be buffered.
+		nSites := 0
+		for _, f := range c.L.SrcFuncs("stack") {
+			for _, b := range f.Blocks {
+				for _, in := range b.Instrs {
+					ci, ok := in.(ssa.CallInstruction)
+					if !ok || ci.Common().StaticCallee() != fill {
+						continue
+					}
+					nSites++
+					if f == rs || defaultInline(f) {
+						a.ok("FL-fill-guard", "fill/callers", "fill is called only from readSlice's refill point", in.Pos())
+					} else {
+						a.bad("FL-fill-guard", "fill/callers", "fill is also called from "+funcKey(f)+", outside the guarded refill point of readSlice (no failed newline search, pending-error and buffer-full test before it): the reader can block for more input while complete lines are buffered", in.Pos())
+					}
+				}
+			}
+		}
+		if nSites == 0 {
+			a.und("FL-fill-guard", "fill/callers", "fill is never called", fill.Pos())
+		}
+	}
 	if rs != nil {
 		exprHome = rs.Pkg.Pkg
 		x := &SPE{Fn: rs, MaxVisits: 3, Inline: isAccessor}
